@@ -205,7 +205,9 @@ def r_local_only(ck: Checker) -> None:
         ck.need(len(ccalls) == 1, f"{caller} calls {name}")
         stm = cf.params()[0]
         g = unparse(ccalls[0].args[1])
-        ck.add(f"{caller}: globals = all variables visible in the body", g == f"global_vars_inside_body({stm}.body)", cf, ccalls[0], f"globals argument `{g}`",
+        itg = ck.interp(cf)
+        gtexts = itg.texts(ccalls[0], ccalls[0].args[1]) or {g}
+        ck.add(f"{caller}: globals = all variables visible in the body", gtexts == {f"global_vars_inside_body({stm}.body)"}, cf, ccalls[0], f"globals argument `{g}` = {sorted(gtexts)}",
                "the set must contain bound AND unbound global variables (a variable bound through `slot(2*X)` is global although ngo's binder analysis calls it unbound)")
         itc = ck.interp(cf)
         ck.guard(f"{caller}: only rules and objectives", cf, ccalls[0], f"{stm}.ast_type in (ASTType.Rule, ASTType.Minimize)", "")
@@ -233,10 +235,14 @@ def r_inline_rule(ck: Checker) -> None:
     nb = single_def(func, "new_body")
     ok = nb is not None and same(unparse(nb), f"inline_replace_stms([x for x in {stm}.body if x != blit], var, rest)")
     ck.add("body := (body without the equality)[var := rest]", ok, func, func.node, f"new_body = `{unparse(nb) if nb is not None else None}`", "")
+    # the side conditions hold where the substitution starts (whether the equality was found by a loop with break or by a
+    # search helper that returns it)
+    starts = [n for n in find_nodes(func.node, lambda n: isinstance(n, (ast.Assign, ast.AnnAssign))) if unparse(getattr(n, "target", None) or n.targets[0]) == "new_body"]  # type: ignore[attr-defined]
     brk = [n for n in find_nodes(func.node, lambda n: isinstance(n, ast.Break))]
-    ck.need(len(brk) == 1, "the first usable equality is selected with break")
-    ck.guard("the variable is used elsewhere", func, brk[0], f"1 < [x.name for x in collect_ast({stm}, 'Variable')].count(_equality(blit)[0].name)", "an equality whose variable occurs nowhere else is a test, not a definition")
-    ck.guard("only rules and objectives", func, brk[0], f"{stm}.ast_type in (ASTType.Rule, ASTType.Minimize)", "")
+    site = brk[0] if len(brk) == 1 else (starts[0] if len(starts) == 1 else None)
+    ck.need(site is not None, "the substitution starts at one site")
+    ck.guard("the variable is used elsewhere", func, site, f"1 < [x.name for x in collect_ast({stm}, 'Variable')].count(_equality(blit)[0].name)", "an equality whose variable occurs nowhere else is a test, not a definition")  # type: ignore[arg-type]
+    ck.guard("only rules and objectives", func, site, f"{stm}.ast_type in (ASTType.Rule, ASTType.Minimize)", "")  # type: ignore[arg-type]
 
 
 def r_aggregate_conversion(ck: Checker) -> None:
